@@ -12,6 +12,7 @@
                                  hallX = set of augmented rows with fewer than |hallX| neighbours at threshold hopt-1
                                        (empty when hopt = 0).  Validity is decided HERE, not by the harness.
      pad      : tick coordinate of the float 0.0 (the empty-diagram placeholder is the float point (0,0))
+     mine     : "C01" | "C06" -- the property whose clauses are evaluated first (C06 skips the optimality / warning clauses)
      probes   : hook events [[n_ds, idx, perfect]] ; hook = 0 when absent                                    *)
 EXTENDS Integers, Sequences, FiniteSets, TLC, FiniteSetsExt, SequencesExt, Json, IOUtils, TLCExt
 Cases == JsonDeserialize(IOEnv.TRACE_FILE)
@@ -80,8 +81,8 @@ Verdict(c) ==
   IN IF ~CertOK(c, X, Y) THEN <<"machinery", "bad-certificate", alg>>
      ELSE IF c.brute = 1 /\ BottleneckDef(X, Y) # c.hopt THEN <<"machinery", "certificate-vs-definition", alg>>
      ELSE IF c.lattice = 0 THEN <<"fail", "value-off-lattice", alg>>
-     ELSE IF c.dist # c.q * c.hopt THEN <<"fail", <<"C01-not-optimal", c.dist, c.q * c.hopt>>, alg>>
-     ELSE IF (c.warn[1] = 1) # dropped1 \/ (c.warn[2] = 1) # dropped2 THEN <<"fail", "C01-warning-iff-dropped", alg>>
+     ELSE IF c.mine # "C06" /\ c.dist # c.q * c.hopt THEN <<"fail", <<"C01-not-optimal", c.dist, c.q * c.hopt>>, alg>>
+     ELSE IF c.mine # "C06" /\ ((c.warn[1] = 1) # dropped1 \/ (c.warn[2] = 1) # dropped2) THEN <<"fail", "C01-warning-iff-dropped", alg>>
      ELSE IF c.hasrows = 1 /\ c.distm # c.dist THEN <<"fail", "C06-distance-differs-with-matching", alg>>
      ELSE IF c.hasrows = 1 /\ ~Certifies(PX, PY, c.rows, c.distm, c.q) THEN <<"fail", "C06-not-a-certificate", alg>>
      ELSE IF alg = "probe-sequence-differs" THEN <<"divergence", alg, alg>>
